@@ -169,6 +169,9 @@ def c08(chk, tier):
     replay_curves(chk, "MCCurves views, 3 pieces, disconnected graphs",
                   C("{3}", "{2, 4, 5}" if q else "{2, 4, 5, 7}", "{1, 2}", "{2}" if q else "{1, 3}", views="TRUE"), what, invs)
     replay_curves(chk, "MCCurves views, 2 pieces", C("{2}", "{3, 4, 5}", "{1, 2, 3}", "{1, 3}", views="TRUE"), what, invs)
+    # rising and falling pieces mixed: a level can bridge two groups that already exist
+    replay_curves(chk, "MCCurves mixed directions, 3-4 pieces",
+                  C("{3, 4}" if q else "{4}", "{2, 4, 5}" if q else "{1, 2, 4, 5}", "{1, 2}" if q else "{1, 2, 3}", "{2}", "DirBoth"), what, invs)
     if not q:
         replay_curves(chk, "MCCurves views, 4 pieces", C("{4}", "{2, 4, 5}", "{1, 2}", "{2}", views="TRUE"), what, invs)
         replay_curves(chk, "MCCurves views rising", C("{3}", "{2, 4, 5}", "{1, 2}", "{2}", "DirUp", views="TRUE"), what, invs)
